@@ -274,11 +274,13 @@ def runC03 (t : Tier) : Emit Unit := do
         emit "C03" (demuxCase st.bytes { view := .seq } none none "crc-valid-tiny-section")
   -- a table of every family cut at every offset (the unit simply ends there), and a PMT whose descriptor loop holds a
   -- descriptor of every kind, cut at every offset of that descriptor
-  for k in [0:6] do
-    let (_, sb) ← liftGen (genSectionOfKind k false)
+  for kk in [0:12] do
+    -- (a small and a large table of every family: the large ones have several loop entries to be cut in)
+    let k := kk % 6
+    let (_, sb) ← liftGen (genSectionOfKind k (kk ≥ 6))
     let pidT := [0, 0x1000, 0x11, 0x10, 0x12, 0x14].getD k 0
     let unit : Bytes := [0] ++ sb
-    for cut in [1:min unit.length 160] do
+    for cut in [1:min unit.length (if kk ≥ 6 then 260 else 160)] do
       let u : Spec.TSUnit := { pid := pidT, payload := unit.take cut, data := [], psi := true, chunks := [cut] }
       let st : Spec.StreamModel := { units := (if pidT = 0 then [u, u] else [pat0, u, u]), schedule := [] }
       emit "C03" (demuxCase st.bytes { view := .outcomes } none none "section-cut-at-every-offset")
